@@ -50,6 +50,11 @@ TopLieArgs(C, k) == IF k \in ProviderKinds
                     THEN {[a EXCEPT !.pp = pp] : a \in {x \in HonestArgs(C, k) : x.lc = "top" /\ x.page = 0 /\ x.h \in LieHeights /\ x.h < C.tip},
                                                 pp \in {"", "break"}}
                     ELSE {}
+\* lying primary asked for its LATEST block (height = nil): the light client behind (fresh: the lie is
+\* verified like any block) and up to date (warm: nothing from the primary may be relayed)
+LatestLieArgs(C, k) == IF k \in ProviderKinds
+                       THEN {x \in HonestArgs(C, k) : x.h = 0 /\ x.page = 0 /\ x.lc \in (IF k = "Commit" THEN {"fresh", "warm"} ELSE {"warm"})}
+                       ELSE {}
 OtherHeights(C, a) == {h \in 1..C.tip : h # a.h /\ h # a.lo}
 CasesOf(id) ==
   LET C == ChainOf(id) IN
@@ -62,7 +67,7 @@ CasesOf(id) ==
   \cup UNION {UNION {{[chain |-> id, kind |-> k, a |-> a, f |-> NoLie]}
                      \cup {[chain |-> id, kind |-> k, a |-> a, f |-> f] :
                              f \in {g \in Lies(C, k, a, OtherHeights(C, a)) : WithCoherent \/ ~g.coh}}
-                     : a \in TopLieArgs(C, k)} : k \in Kinds \cap CaseKinds}
+                     : a \in TopLieArgs(C, k) \cup LatestLieArgs(C, k)} : k \in Kinds \cap CaseKinds}
 \* searches answered by the full node's rpc/core TxSearch with prove = true (kind "TxSearch": no lie,
 \* the subject is the honest server itself)
 SearchCasesOf(id) == IF "TxSearch" \in CaseKinds
